@@ -11,10 +11,12 @@ import (
 
 // concOracles selects the oracles of a concurrent world.
 type concOracles struct {
-	replicas  bool // C06: channel replica + log replica must equal the primary at quiescence
-	stream    bool // C15/C05: exactly-once, ids, per-block order, decoded ops == issued ops
-	snapshots bool // C08: snapshots under commits restore to a consistent cut
-	phantom   bool // C02: in-flight inserts must not be visible to other readers
+	replicas  bool   // C06: channel replica + log replica must equal the primary at quiescence
+	stream    bool   // C15/C05: exactly-once, ids, per-block order, decoded ops == issued ops
+	snapshots bool   // C08: snapshots under commits restore to a consistent cut
+	phantom   bool   // C02: in-flight inserts must not be visible to other readers
+	log       bool   // the primary's commits are also serialized to a commit.Log on a SimFile
+	truncate  [2]int // C13: enumerate truncation points (every byte below [0], else [1] samples); [0]==0 = off
 }
 
 // blockCommit is one (transaction, block) application in latch order.
@@ -31,6 +33,7 @@ type snapRec struct {
 	err      error
 	base     *Model         // committed model state when Snapshot was invoked
 	ack      map[uint32]int // per block: commits acknowledged (latch released) at invocation
+	stateLen int            // bytes written when the recorder was closed (state part)
 	applied0 map[uint32]int // per block: commits applied at invocation
 	applied1 map[uint32]int // per block: commits applied when Snapshot returned
 	panicked any
@@ -139,6 +142,11 @@ func runConc(cs *Case, or concOracles) (w *World) {
 		w.tap.Sinks = []commit.Logger{st.ch, st.log}
 		// replicas start from the same populated state
 		w.copyState(st.replicaC)
+	}
+	if or.log && st.log == nil {
+		st.logFile = &SimRW{SimFile: NewSimFile()}
+		st.log = commit.Open(st.logFile)
+		w.tap.Sinks = append(w.tap.Sinks, st.log)
 	}
 	w.tap.onAppend = func(tc *TapCommit, c commit.Commit) { w.onEmit(tc, c) }
 
@@ -358,6 +366,10 @@ func (w *World) concHook(c *column.Collection, latch *smutex.SMutex128, p uint8,
 		}
 	case uint8(column.SimSnapshotPhase):
 		w.stats.probe(fmt.Sprintf("snapshot-phase-%d", arg))
+		if arg == 3 && len(st.snaps) > 0 {
+			s := st.snaps[len(st.snaps)-1]
+			s.stateLen = len(s.file.Data)
+		}
 	case uint8(column.SimBeforeRLock):
 		// a muted hook does not park: the block is read right now
 		if w.sim.cur.role == "snapshot" && w.sim.muted[p] && w.readyFn(c, p, arg) == nil && w.reservedIn(arg) {
@@ -418,6 +430,12 @@ func (w *World) quiescentChecks() {
 			v.Sig = "replica-log/" + v.Sig
 			v.Detail = fmt.Sprintf("replica fed from the serialized log (%d commits) differs from the quiescent primary: %s", n, v.Detail)
 			w.fail(v)
+			return
+		}
+	}
+	if st.or.truncate[0] > 0 {
+		w.truncationChecks(st.or.truncate[0], st.or.truncate[1])
+		if w.viol != nil {
 			return
 		}
 	}
